@@ -56,6 +56,8 @@ type Scenario struct {
 	// Every policy still only chooses among actors that are really waiting, so each
 	// schedule it produces is one the system can exhibit.
 	Policy string
+	// Choose, when set, overrides Policy: it picks the waiter to release.
+	Choose func(ws []mon.Waiter, g *rng.Rand) mon.Waiter
 	// Handlers are extra hook handlers (assertions, recorders) installed before the gate handler.
 	Handlers []mon.Handler
 	// AfterOpen is called once the controlled part is over and the gates are
@@ -190,7 +192,12 @@ func Run(sc *Scenario, obs Observer, final func(r *Runner)) (*Result, error) {
 			continue
 		}
 		idleRounds = 0
-		pick := choose(sc.Policy, st.Waiters, sc.G)
+		var pick mon.Waiter
+		if sc.Choose != nil {
+			pick = sc.Choose(st.Waiters, sc.G)
+		} else {
+			pick = choose(sc.Policy, st.Waiters, sc.G)
+		}
 		if pick.Point == "batch.beforeIntro" {
 			r.mu.Lock()
 			ref, ok := r.current[pick.Actor]
